@@ -102,6 +102,44 @@ Proof.
       * exact (leaf_not_in_str_sound vs vmin vmax z Hlo Hhi H).
 Qed.
 
+(* ---------- totality: well-typed arguments never make the decision raise --------------------- *)
+
+Theorem leaf_total_int : forall op c vmin vmax z, In op ops -> const_ok_int op c ->
+  lo_ok_int vmin z -> hi_ok_int vmax z -> exists b, filter_val (PStr op) c vmin vmax = Ok b.
+Proof.
+  intros op c vmin vmax z Hop Hc Hlo Hhi.
+  assert (forall lo hi, lo_core lo z -> hi_core hi z -> exists b, filter_val (PStr op) c lo hi = Ok b) as core.
+  { clear Hlo Hhi vmin vmax. intros lo hi Hlo Hhi.
+    destruct Hc as [[Hs [v ->]]|[Hl [vs ->]]].
+    - cbn [scalar_ops In] in Hs.
+      repeat (destruct Hs as [<-|Hs]; [clear Hop; core_shapes Hlo Hhi; solve [split_res]|]). contradiction.
+    - cbn [list_ops In] in Hl.
+      repeat (destruct Hl as [<-|Hl]; [clear Hop; core_shapes Hlo Hhi; solve [split_res]|]). contradiction. }
+  lift_total core Hlo Hhi.
+Qed.
+
+Theorem leaf_total_str : forall op c vmin vmax z, In op ops -> const_ok_str op c ->
+  lo_ok_str vmin z -> hi_ok_str vmax z -> exists b, filter_val (PStr op) c vmin vmax = Ok b.
+Proof.
+  intros op c vmin vmax z Hop Hc Hlo Hhi.
+  assert (forall lo hi, slo_core lo z -> shi_core hi z -> exists b, filter_val (PStr op) c lo hi = Ok b) as core.
+  { clear Hlo Hhi vmin vmax. intros lo hi Hlo Hhi.
+    destruct Hc as [[Hs [v ->]]|[Hl [vs ->]]].
+    - cbn [scalar_ops In] in Hs.
+      repeat (destruct Hs as [<-|Hs]; [clear Hop; score_shapes Hlo Hhi; solve [ssplit_res]|]). contradiction.
+    - cbn [list_ops In] in Hl.
+      repeat (destruct Hl as [<-|Hl]; [clear Hop; score_shapes Hlo Hhi; solve [ssplit_res]|]). contradiction. }
+  lift_total core Hlo Hhi.
+Qed.
+
+Theorem leaf_all_total : forall op c vmin vmax x, In op ops -> covered op c vmin vmax x ->
+  exists b, filter_val (PStr op) c vmin vmax = Ok b.
+Proof.
+  intros op c vmin vmax x Hop [[z [-> [Hc [Hlo Hhi]]]]|[z [-> [Hc [Hlo Hhi]]]]].
+  - exact (leaf_total_int op c vmin vmax z Hop Hc Hlo Hhi).
+  - exact (leaf_total_str op c vmin vmax z Hop Hc Hlo Hhi).
+Qed.
+
 (* The helper filter_not_in on its own (the rule the pinned tree applied to every chunk; the repaired
    filter_val calls it only when vmin == vmax) is not a sound pruning rule: min=0, max=4, `not in [4]`
    is answered "skip" although the cell 0 satisfies the condition. *)
